@@ -114,9 +114,7 @@ def _containers(name: str, m: Any) -> Any:
             holders.append((f'{name}.{k}', v))
     for hn, h in holders:
         for k, v in list(vars(h).items()):
-            if k.startswith('__'):
-                continue
-            if isinstance(v, (dict, list, set)):
+            if isinstance(v, (dict, list, set)) and not k.startswith('__'):
                 yield f'{hn}.{k}', v
             f = v.__func__ if isinstance(v, (classmethod, staticmethod)) else v
             if isinstance(f, types.FunctionType) and getattr(f, '__module__', None) == name:
